@@ -28,8 +28,11 @@ static void ev_ring(H3Index h, int k) {
     int64_t sz = k <= 0 ? 1 : 6 * (int64_t)k;
     H3Index *o = gb_alloc(sz, sizeof(H3Index), 0);
     H3Error r = gridRingUnsafe(h, k, o);
+    /* observation for the known finding: how many pentagons lie strictly inside the ring (safe disk of radius k-1) */
+    int encl = 0; if (k >= 1 && k <= 80 && isValidCell(h)) { int64_t dsz; if (!maxGridDiskSize(k - 1, &dsz)) { H3Index *dd = calloc(dsz, 8); if (dd && !gridDisk(h, k - 1, dd)) for (int64_t i = 0; i < dsz; i++) if (dd[i] && isPentagon(dd[i])) encl++; free(dd); } }
     fputs("{\"e\":\"ringUnsafe\",\"h\":", vt_out); vt_word(h);
-    fprintf(vt_out, ",\"k\":%d,\"r\":%u,\"guard\":%d,\"o\":", k, r, gb_ok(o)); vt_words(o, sz); fputs("}\n", vt_out);
+    int pentOut = 0; if (!r) for (int64_t i = 0; i < sz; i++) if (o[i] && isPentagon(o[i])) pentOut++;        /* pentagons among the cells the walk returned */
+    fprintf(vt_out, ",\"k\":%d,\"r\":%u,\"guard\":%d,\"encl\":%d,\"wrapped\":%d,\"pentOut\":%d,\"o\":", k, r, gb_ok(o), encl, encl >= 6 ? 1 : 0, pentOut); vt_words(o, sz); fputs("}\n", vt_out);
     gb_free(o);
 }
 static void ev_disks(H3Index *hs, int n, int k) {
@@ -112,6 +115,16 @@ int main(int argc, char **argv) {
             }
             cv_free(&cv);
         }
+    } else if (argc == 5 && !strcmp(argv[1], "wrap")) {
+        /* hollow rings large enough to enclose several pentagons (the closure test is all that protects them) */
+        int quick = argv[2][0] == 'q'; vt_seed(strtoull(argv[3], 0, 10) + 55); vt_open(argv[4]);
+        for (int res = 0; res <= 1; res++) {
+            CellVec cv = {0}; cv_all_cells(&cv, res);
+            int lo = res == 0 ? 4 : 9, hi = res == 0 ? 9 : 14;
+            for (int64_t i = 0; i < cv.n; i++) { if (quick && (i % (res ? 12 : 3)) != 1) continue; for (int k = lo; k <= hi; k++) { if (quick && res && k < 11 && k % 2) continue; ev_ring(cv.v[i], k); } }
+            cv_free(&cv);
+        }
+        if (!quick) for (int t = 0; t < 60; t++) { H3Index h = vt_random_cell(2); ev_ring(h, 25 + (int)vt_randn(16)); }
     } else return 2;
     vt_close();
     return 0;
